@@ -67,6 +67,16 @@ pub fn judge_applied(region: &str, before: &VerifMac, after: &VerifMac, d: &refc
                     let f = u32::from_le_bytes([cf[3 * k], cf[3 * k + 1], cf[3 * k + 2], 0]) * 100;
                     let got = after.region.channels[nj + k].map(|c| c.frequency);
                     let prev = before.region.channels[nj + k].map(|c| c.frequency);
+                    // a channel the CFList defines belongs to the new session: it has no downlink frequency of its own
+                    // (what a DlChannelReq of the previous session negotiated is gone with that session)
+                    if f != 0 && f >= lo && f <= hi
+                        && let Some(ch) = after.region.channels[nj + k]
+                        && ch.frequency == f
+                        && let Some(dlf) = ch.dl_frequency
+                        && dlf != f
+                    {
+                        out.push(V { sig: "C11|cflist|channel-keeps-downlink-frequency-of-previous-session".into(), what: format!("{region}: CFList entry {k} = {f} Hz: channel {} after the join has RX1 frequency {dlf} Hz", nj + k) });
+                    }
                     let ok = if f == 0 {
                         got.is_none()
                     } else if f >= lo && f <= hi {
@@ -473,12 +483,26 @@ pub struct SweepCase {
 fn eval_sweep(c: &SweepCase) -> Vec<(String, String)> {
     let mut s = Sys::new(&c.front, &DevCfg::otaa(&c.region));
     let mut out = vec![];
-    if c.pre >= 1 {
+    if (1..=3).contains(&c.pre) {
         s.step(&JEv::Join { outcome: 0, nonce: 7, spec: 0 });
     }
-    if c.pre >= 2 {
+    if c.pre == 2 || c.pre == 3 {
         // re-join from a joined state: with non-default settings (2) or with CFList channels in place (3)
         s.step(&JEv::Join { outcome: 1, nonce: 9, spec: if c.pre == 3 { 1 } else { 2 } });
+    }
+    if c.pre == 4 {
+        // joined with CFList channels, then a DlChannelReq gives the first CFList channel another RX1 frequency
+        s.step(&JEv::Join { outcome: 1, nonce: 9, spec: 1 });
+        if !rr::is_fixed(&c.region) {
+            let idx = rr::default_channels(&c.region).len() as u8;
+            let fb = cmds::freq_bytes(cmds::freqs(&c.region)[7]);
+            let d = Frame::Down { fcnt: Fcnt::Rel(1), confirmed: false, ack: false, fopts: vec![0x0A, idx, fb[0], fb[1], fb[2]], port: None, payload: vec![], tamper: Tamper::None };
+            if let Some(nb) = &mut s.nb {
+                nb.apply(&Ev::Cycle { confirmed: false, port: 1, len: 1, rx1: Some(d), rx2: None });
+            } else if let Some(ac) = &mut s.ac {
+                ac.apply(&AEv::Send { confirmed: false, port: 1, len: 1, script: Script { rx1: Some(d), ..Default::default() } });
+            }
+        }
     }
     let f = Frame::JoinAccept {
         join_nonce: c.jn,
@@ -528,7 +552,7 @@ pub fn run(tier: Tier, replay: Option<&str>) {
         for front in ["nb", "async"] {
             let mut cases = vec![];
             for (i, sp) in specs.iter().enumerate() {
-                for pre in 0..4u8 {
+                for pre in 0..5u8 {
                     if front != "nb" && pre != 0 && i % 7 != 0 {
                         continue;
                     }
@@ -615,7 +639,7 @@ pub fn run(tier: Tier, replay: Option<&str>) {
         ],
         "evaluations": ctx.evals(),
         "distinct_nontrivial": states + sweep.load(Ordering::Relaxed),
-        "rule": "(A) sweep: every JoinAccept content (all 256 DLSettings x RxDelay x CFList variants incl. RFU types, zero / out-of-band frequencies and masks; JoinNonce/NetID/DevAddr/DevNonce boundary sets) delivered in RX1 or RX2 to a fresh device, after a failed attempt, and as a re-join from a joined state with non-default settings, followed by the first uplink; (B) BFS over histories of up to 4 join attempts (none / valid RX1 / valid RX2 / bad MIC / wrong key / wrong length / replay of an earlier accept / data frame / bad-then-valid) interleaved with uplinks and with the application switching to a second credential set or to another AppKey for the same identifiers, on nb, async and async+Class C; (C) 72-channel plans: for every k in 0..=72, k unanswered attempts, a join accepted with a CFList, 72 unanswered re-join attempts",
+        "rule": "(A) sweep: every JoinAccept content (all 256 DLSettings x RxDelay x CFList variants incl. RFU types, zero / out-of-band frequencies and masks; JoinNonce/NetID/DevAddr/DevNonce boundary sets) delivered in RX1 or RX2 to a fresh device, after a failed attempt, and as a re-join from a joined state with non-default settings / with CFList channels in place / after a DlChannelReq on a CFList channel, followed by the first uplink; (B) BFS over histories of up to 4 join attempts (none / valid RX1 / valid RX2 / bad MIC / wrong key / wrong length / replay of an earlier accept / data frame / bad-then-valid) interleaved with uplinks and with the application switching to a second credential set or to another AppKey for the same identifiers, on nb, async and async+Class C; (C) 72-channel plans: for every k in 0..=72, k unanswered attempts, a join accepted with a CFList, 72 unanswered re-join attempts",
         "sweep_cases": sweep.load(Ordering::Relaxed),
         "bfs_depth": depth,
         "outcomes": outcomes,
